@@ -1105,37 +1105,105 @@ package gomatrixserverlib
 // content keep-lists of the five redaction algorithms (transcribed from the room version specifications;
 // /verif/tools/c05_content_contract.generated.txt)
 //@   ensures C05.content.V1.types: forall ty string :: (ty in unredactableContentFieldsV1) <==> (ty == "m.room.aliases" || ty == "m.room.create" || ty == "m.room.history_visibility" || ty == "m.room.join_rules" || ty == "m.room.member" || ty == "m.room.power_levels")
-//@   ensures C05.content.V1.aliases: len(get(unredactableContentFieldsV1, "m.room.aliases")) > 0 && (forall k string :: kept(unredactableContentFieldsV1, "m.room.aliases", k) <==> (k == "aliases"))
-//@   ensures C05.content.V1.create: len(get(unredactableContentFieldsV1, "m.room.create")) > 0 && (forall k string :: kept(unredactableContentFieldsV1, "m.room.create", k) <==> (k == "creator"))
-//@   ensures C05.content.V1.history_visibility: len(get(unredactableContentFieldsV1, "m.room.history_visibility")) > 0 && (forall k string :: kept(unredactableContentFieldsV1, "m.room.history_visibility", k) <==> (k == "history_visibility"))
-//@   ensures C05.content.V1.join_rules: len(get(unredactableContentFieldsV1, "m.room.join_rules")) > 0 && (forall k string :: kept(unredactableContentFieldsV1, "m.room.join_rules", k) <==> (k == "join_rule"))
-//@   ensures C05.content.V1.member: len(get(unredactableContentFieldsV1, "m.room.member")) > 0 && (forall k string :: kept(unredactableContentFieldsV1, "m.room.member", k) <==> (k == "membership"))
-//@   ensures C05.content.V1.power_levels: len(get(unredactableContentFieldsV1, "m.room.power_levels")) > 0 && (forall k string :: kept(unredactableContentFieldsV1, "m.room.power_levels", k) <==> (k == "ban" || k == "events" || k == "events_default" || k == "kick" || k == "redact" || k == "state_default" || k == "users" || k == "users_default"))
+//@   ensures C05.content.V1.aliases.only: forall k string :: kept(unredactableContentFieldsV1, "m.room.aliases", k) ==> (k == "aliases")
+//@   ensures C05.content.V1.aliases.keeps.aliases: kept(unredactableContentFieldsV1, "m.room.aliases", "aliases")
+//@   ensures C05.content.V1.create.only: forall k string :: kept(unredactableContentFieldsV1, "m.room.create", k) ==> (k == "creator")
+//@   ensures C05.content.V1.create.keeps.creator: kept(unredactableContentFieldsV1, "m.room.create", "creator")
+//@   ensures C05.content.V1.history_visibility.only: forall k string :: kept(unredactableContentFieldsV1, "m.room.history_visibility", k) ==> (k == "history_visibility")
+//@   ensures C05.content.V1.history_visibility.keeps.history_visibility: kept(unredactableContentFieldsV1, "m.room.history_visibility", "history_visibility")
+//@   ensures C05.content.V1.join_rules.only: forall k string :: kept(unredactableContentFieldsV1, "m.room.join_rules", k) ==> (k == "join_rule")
+//@   ensures C05.content.V1.join_rules.keeps.join_rule: kept(unredactableContentFieldsV1, "m.room.join_rules", "join_rule")
+//@   ensures C05.content.V1.member.only: forall k string :: kept(unredactableContentFieldsV1, "m.room.member", k) ==> (k == "membership")
+//@   ensures C05.content.V1.member.keeps.membership: kept(unredactableContentFieldsV1, "m.room.member", "membership")
+//@   ensures C05.content.V1.power_levels.only: forall k string :: kept(unredactableContentFieldsV1, "m.room.power_levels", k) ==> (k == "ban" || k == "events" || k == "events_default" || k == "kick" || k == "redact" || k == "state_default" || k == "users" || k == "users_default")
+//@   ensures C05.content.V1.power_levels.keeps.ban: kept(unredactableContentFieldsV1, "m.room.power_levels", "ban")
+//@   ensures C05.content.V1.power_levels.keeps.events: kept(unredactableContentFieldsV1, "m.room.power_levels", "events")
+//@   ensures C05.content.V1.power_levels.keeps.events_default: kept(unredactableContentFieldsV1, "m.room.power_levels", "events_default")
+//@   ensures C05.content.V1.power_levels.keeps.kick: kept(unredactableContentFieldsV1, "m.room.power_levels", "kick")
+//@   ensures C05.content.V1.power_levels.keeps.redact: kept(unredactableContentFieldsV1, "m.room.power_levels", "redact")
+//@   ensures C05.content.V1.power_levels.keeps.state_default: kept(unredactableContentFieldsV1, "m.room.power_levels", "state_default")
+//@   ensures C05.content.V1.power_levels.keeps.users: kept(unredactableContentFieldsV1, "m.room.power_levels", "users")
+//@   ensures C05.content.V1.power_levels.keeps.users_default: kept(unredactableContentFieldsV1, "m.room.power_levels", "users_default")
 //@   ensures C05.content.V2.types: forall ty string :: (ty in unredactableContentFieldsV2) <==> (ty == "m.room.create" || ty == "m.room.history_visibility" || ty == "m.room.join_rules" || ty == "m.room.member" || ty == "m.room.power_levels")
-//@   ensures C05.content.V2.create: len(get(unredactableContentFieldsV2, "m.room.create")) > 0 && (forall k string :: kept(unredactableContentFieldsV2, "m.room.create", k) <==> (k == "creator"))
-//@   ensures C05.content.V2.history_visibility: len(get(unredactableContentFieldsV2, "m.room.history_visibility")) > 0 && (forall k string :: kept(unredactableContentFieldsV2, "m.room.history_visibility", k) <==> (k == "history_visibility"))
-//@   ensures C05.content.V2.join_rules: len(get(unredactableContentFieldsV2, "m.room.join_rules")) > 0 && (forall k string :: kept(unredactableContentFieldsV2, "m.room.join_rules", k) <==> (k == "join_rule"))
-//@   ensures C05.content.V2.member: len(get(unredactableContentFieldsV2, "m.room.member")) > 0 && (forall k string :: kept(unredactableContentFieldsV2, "m.room.member", k) <==> (k == "membership"))
-//@   ensures C05.content.V2.power_levels: len(get(unredactableContentFieldsV2, "m.room.power_levels")) > 0 && (forall k string :: kept(unredactableContentFieldsV2, "m.room.power_levels", k) <==> (k == "ban" || k == "events" || k == "events_default" || k == "kick" || k == "redact" || k == "state_default" || k == "users" || k == "users_default"))
+//@   ensures C05.content.V2.create.only: forall k string :: kept(unredactableContentFieldsV2, "m.room.create", k) ==> (k == "creator")
+//@   ensures C05.content.V2.create.keeps.creator: kept(unredactableContentFieldsV2, "m.room.create", "creator")
+//@   ensures C05.content.V2.history_visibility.only: forall k string :: kept(unredactableContentFieldsV2, "m.room.history_visibility", k) ==> (k == "history_visibility")
+//@   ensures C05.content.V2.history_visibility.keeps.history_visibility: kept(unredactableContentFieldsV2, "m.room.history_visibility", "history_visibility")
+//@   ensures C05.content.V2.join_rules.only: forall k string :: kept(unredactableContentFieldsV2, "m.room.join_rules", k) ==> (k == "join_rule")
+//@   ensures C05.content.V2.join_rules.keeps.join_rule: kept(unredactableContentFieldsV2, "m.room.join_rules", "join_rule")
+//@   ensures C05.content.V2.member.only: forall k string :: kept(unredactableContentFieldsV2, "m.room.member", k) ==> (k == "membership")
+//@   ensures C05.content.V2.member.keeps.membership: kept(unredactableContentFieldsV2, "m.room.member", "membership")
+//@   ensures C05.content.V2.power_levels.only: forall k string :: kept(unredactableContentFieldsV2, "m.room.power_levels", k) ==> (k == "ban" || k == "events" || k == "events_default" || k == "kick" || k == "redact" || k == "state_default" || k == "users" || k == "users_default")
+//@   ensures C05.content.V2.power_levels.keeps.ban: kept(unredactableContentFieldsV2, "m.room.power_levels", "ban")
+//@   ensures C05.content.V2.power_levels.keeps.events: kept(unredactableContentFieldsV2, "m.room.power_levels", "events")
+//@   ensures C05.content.V2.power_levels.keeps.events_default: kept(unredactableContentFieldsV2, "m.room.power_levels", "events_default")
+//@   ensures C05.content.V2.power_levels.keeps.kick: kept(unredactableContentFieldsV2, "m.room.power_levels", "kick")
+//@   ensures C05.content.V2.power_levels.keeps.redact: kept(unredactableContentFieldsV2, "m.room.power_levels", "redact")
+//@   ensures C05.content.V2.power_levels.keeps.state_default: kept(unredactableContentFieldsV2, "m.room.power_levels", "state_default")
+//@   ensures C05.content.V2.power_levels.keeps.users: kept(unredactableContentFieldsV2, "m.room.power_levels", "users")
+//@   ensures C05.content.V2.power_levels.keeps.users_default: kept(unredactableContentFieldsV2, "m.room.power_levels", "users_default")
 //@   ensures C05.content.V3.types: forall ty string :: (ty in unredactableContentFieldsV3) <==> (ty == "m.room.create" || ty == "m.room.history_visibility" || ty == "m.room.join_rules" || ty == "m.room.member" || ty == "m.room.power_levels")
-//@   ensures C05.content.V3.create: len(get(unredactableContentFieldsV3, "m.room.create")) > 0 && (forall k string :: kept(unredactableContentFieldsV3, "m.room.create", k) <==> (k == "creator"))
-//@   ensures C05.content.V3.history_visibility: len(get(unredactableContentFieldsV3, "m.room.history_visibility")) > 0 && (forall k string :: kept(unredactableContentFieldsV3, "m.room.history_visibility", k) <==> (k == "history_visibility"))
-//@   ensures C05.content.V3.join_rules: len(get(unredactableContentFieldsV3, "m.room.join_rules")) > 0 && (forall k string :: kept(unredactableContentFieldsV3, "m.room.join_rules", k) <==> (k == "join_rule" || k == "allow"))
-//@   ensures C05.content.V3.member: len(get(unredactableContentFieldsV3, "m.room.member")) > 0 && (forall k string :: kept(unredactableContentFieldsV3, "m.room.member", k) <==> (k == "membership"))
-//@   ensures C05.content.V3.power_levels: len(get(unredactableContentFieldsV3, "m.room.power_levels")) > 0 && (forall k string :: kept(unredactableContentFieldsV3, "m.room.power_levels", k) <==> (k == "ban" || k == "events" || k == "events_default" || k == "kick" || k == "redact" || k == "state_default" || k == "users" || k == "users_default"))
+//@   ensures C05.content.V3.create.only: forall k string :: kept(unredactableContentFieldsV3, "m.room.create", k) ==> (k == "creator")
+//@   ensures C05.content.V3.create.keeps.creator: kept(unredactableContentFieldsV3, "m.room.create", "creator")
+//@   ensures C05.content.V3.history_visibility.only: forall k string :: kept(unredactableContentFieldsV3, "m.room.history_visibility", k) ==> (k == "history_visibility")
+//@   ensures C05.content.V3.history_visibility.keeps.history_visibility: kept(unredactableContentFieldsV3, "m.room.history_visibility", "history_visibility")
+//@   ensures C05.content.V3.join_rules.only: forall k string :: kept(unredactableContentFieldsV3, "m.room.join_rules", k) ==> (k == "join_rule" || k == "allow")
+//@   ensures C05.content.V3.join_rules.keeps.join_rule: kept(unredactableContentFieldsV3, "m.room.join_rules", "join_rule")
+//@   ensures C05.content.V3.join_rules.keeps.allow: kept(unredactableContentFieldsV3, "m.room.join_rules", "allow")
+//@   ensures C05.content.V3.member.only: forall k string :: kept(unredactableContentFieldsV3, "m.room.member", k) ==> (k == "membership")
+//@   ensures C05.content.V3.member.keeps.membership: kept(unredactableContentFieldsV3, "m.room.member", "membership")
+//@   ensures C05.content.V3.power_levels.only: forall k string :: kept(unredactableContentFieldsV3, "m.room.power_levels", k) ==> (k == "ban" || k == "events" || k == "events_default" || k == "kick" || k == "redact" || k == "state_default" || k == "users" || k == "users_default")
+//@   ensures C05.content.V3.power_levels.keeps.ban: kept(unredactableContentFieldsV3, "m.room.power_levels", "ban")
+//@   ensures C05.content.V3.power_levels.keeps.events: kept(unredactableContentFieldsV3, "m.room.power_levels", "events")
+//@   ensures C05.content.V3.power_levels.keeps.events_default: kept(unredactableContentFieldsV3, "m.room.power_levels", "events_default")
+//@   ensures C05.content.V3.power_levels.keeps.kick: kept(unredactableContentFieldsV3, "m.room.power_levels", "kick")
+//@   ensures C05.content.V3.power_levels.keeps.redact: kept(unredactableContentFieldsV3, "m.room.power_levels", "redact")
+//@   ensures C05.content.V3.power_levels.keeps.state_default: kept(unredactableContentFieldsV3, "m.room.power_levels", "state_default")
+//@   ensures C05.content.V3.power_levels.keeps.users: kept(unredactableContentFieldsV3, "m.room.power_levels", "users")
+//@   ensures C05.content.V3.power_levels.keeps.users_default: kept(unredactableContentFieldsV3, "m.room.power_levels", "users_default")
 //@   ensures C05.content.V4.types: forall ty string :: (ty in unredactableContentFieldsV4) <==> (ty == "m.room.create" || ty == "m.room.history_visibility" || ty == "m.room.join_rules" || ty == "m.room.member" || ty == "m.room.power_levels")
-//@   ensures C05.content.V4.create: len(get(unredactableContentFieldsV4, "m.room.create")) > 0 && (forall k string :: kept(unredactableContentFieldsV4, "m.room.create", k) <==> (k == "creator"))
-//@   ensures C05.content.V4.history_visibility: len(get(unredactableContentFieldsV4, "m.room.history_visibility")) > 0 && (forall k string :: kept(unredactableContentFieldsV4, "m.room.history_visibility", k) <==> (k == "history_visibility"))
-//@   ensures C05.content.V4.join_rules: len(get(unredactableContentFieldsV4, "m.room.join_rules")) > 0 && (forall k string :: kept(unredactableContentFieldsV4, "m.room.join_rules", k) <==> (k == "join_rule" || k == "allow"))
-//@   ensures C05.content.V4.member: len(get(unredactableContentFieldsV4, "m.room.member")) > 0 && (forall k string :: kept(unredactableContentFieldsV4, "m.room.member", k) <==> (k == "membership" || k == "join_authorised_via_users_server"))
-//@   ensures C05.content.V4.power_levels: len(get(unredactableContentFieldsV4, "m.room.power_levels")) > 0 && (forall k string :: kept(unredactableContentFieldsV4, "m.room.power_levels", k) <==> (k == "ban" || k == "events" || k == "events_default" || k == "kick" || k == "redact" || k == "state_default" || k == "users" || k == "users_default"))
+//@   ensures C05.content.V4.create.only: forall k string :: kept(unredactableContentFieldsV4, "m.room.create", k) ==> (k == "creator")
+//@   ensures C05.content.V4.create.keeps.creator: kept(unredactableContentFieldsV4, "m.room.create", "creator")
+//@   ensures C05.content.V4.history_visibility.only: forall k string :: kept(unredactableContentFieldsV4, "m.room.history_visibility", k) ==> (k == "history_visibility")
+//@   ensures C05.content.V4.history_visibility.keeps.history_visibility: kept(unredactableContentFieldsV4, "m.room.history_visibility", "history_visibility")
+//@   ensures C05.content.V4.join_rules.only: forall k string :: kept(unredactableContentFieldsV4, "m.room.join_rules", k) ==> (k == "join_rule" || k == "allow")
+//@   ensures C05.content.V4.join_rules.keeps.join_rule: kept(unredactableContentFieldsV4, "m.room.join_rules", "join_rule")
+//@   ensures C05.content.V4.join_rules.keeps.allow: kept(unredactableContentFieldsV4, "m.room.join_rules", "allow")
+//@   ensures C05.content.V4.member.only: forall k string :: kept(unredactableContentFieldsV4, "m.room.member", k) ==> (k == "membership" || k == "join_authorised_via_users_server")
+//@   ensures C05.content.V4.member.keeps.membership: kept(unredactableContentFieldsV4, "m.room.member", "membership")
+//@   ensures C05.content.V4.member.keeps.join_authorised_via_users_server: kept(unredactableContentFieldsV4, "m.room.member", "join_authorised_via_users_server")
+//@   ensures C05.content.V4.power_levels.only: forall k string :: kept(unredactableContentFieldsV4, "m.room.power_levels", k) ==> (k == "ban" || k == "events" || k == "events_default" || k == "kick" || k == "redact" || k == "state_default" || k == "users" || k == "users_default")
+//@   ensures C05.content.V4.power_levels.keeps.ban: kept(unredactableContentFieldsV4, "m.room.power_levels", "ban")
+//@   ensures C05.content.V4.power_levels.keeps.events: kept(unredactableContentFieldsV4, "m.room.power_levels", "events")
+//@   ensures C05.content.V4.power_levels.keeps.events_default: kept(unredactableContentFieldsV4, "m.room.power_levels", "events_default")
+//@   ensures C05.content.V4.power_levels.keeps.kick: kept(unredactableContentFieldsV4, "m.room.power_levels", "kick")
+//@   ensures C05.content.V4.power_levels.keeps.redact: kept(unredactableContentFieldsV4, "m.room.power_levels", "redact")
+//@   ensures C05.content.V4.power_levels.keeps.state_default: kept(unredactableContentFieldsV4, "m.room.power_levels", "state_default")
+//@   ensures C05.content.V4.power_levels.keeps.users: kept(unredactableContentFieldsV4, "m.room.power_levels", "users")
+//@   ensures C05.content.V4.power_levels.keeps.users_default: kept(unredactableContentFieldsV4, "m.room.power_levels", "users_default")
 //@   ensures C05.content.V5.types: forall ty string :: (ty in unredactableContentFieldsV5) <==> (ty == "m.room.create" || ty == "m.room.history_visibility" || ty == "m.room.join_rules" || ty == "m.room.member" || ty == "m.room.power_levels" || ty == "m.room.redaction")
 //@   ensures C05.content.V5.create: keepAll(unredactableContentFieldsV5, "m.room.create")
-//@   ensures C05.content.V5.history_visibility: len(get(unredactableContentFieldsV5, "m.room.history_visibility")) > 0 && (forall k string :: kept(unredactableContentFieldsV5, "m.room.history_visibility", k) <==> (k == "history_visibility"))
-//@   ensures C05.content.V5.join_rules: len(get(unredactableContentFieldsV5, "m.room.join_rules")) > 0 && (forall k string :: kept(unredactableContentFieldsV5, "m.room.join_rules", k) <==> (k == "join_rule" || k == "allow"))
-//@   ensures C05.content.V5.member: len(get(unredactableContentFieldsV5, "m.room.member")) > 0 && (forall k string :: kept(unredactableContentFieldsV5, "m.room.member", k) <==> (k == "membership" || k == "join_authorised_via_users_server" || k == "third_party_invite"))
-//@   ensures C05.content.V5.power_levels: len(get(unredactableContentFieldsV5, "m.room.power_levels")) > 0 && (forall k string :: kept(unredactableContentFieldsV5, "m.room.power_levels", k) <==> (k == "ban" || k == "events" || k == "events_default" || k == "kick" || k == "redact" || k == "state_default" || k == "users" || k == "users_default" || k == "invite"))
-//@   ensures C05.content.V5.redaction: len(get(unredactableContentFieldsV5, "m.room.redaction")) > 0 && (forall k string :: kept(unredactableContentFieldsV5, "m.room.redaction", k) <==> (k == "redacts"))
+//@   ensures C05.content.V5.history_visibility.only: forall k string :: kept(unredactableContentFieldsV5, "m.room.history_visibility", k) ==> (k == "history_visibility")
+//@   ensures C05.content.V5.history_visibility.keeps.history_visibility: kept(unredactableContentFieldsV5, "m.room.history_visibility", "history_visibility")
+//@   ensures C05.content.V5.join_rules.only: forall k string :: kept(unredactableContentFieldsV5, "m.room.join_rules", k) ==> (k == "join_rule" || k == "allow")
+//@   ensures C05.content.V5.join_rules.keeps.join_rule: kept(unredactableContentFieldsV5, "m.room.join_rules", "join_rule")
+//@   ensures C05.content.V5.join_rules.keeps.allow: kept(unredactableContentFieldsV5, "m.room.join_rules", "allow")
+//@   ensures C05.content.V5.member.only: forall k string :: kept(unredactableContentFieldsV5, "m.room.member", k) ==> (k == "membership" || k == "join_authorised_via_users_server" || k == "third_party_invite")
+//@   ensures C05.content.V5.member.keeps.membership: kept(unredactableContentFieldsV5, "m.room.member", "membership")
+//@   ensures C05.content.V5.member.keeps.join_authorised_via_users_server: kept(unredactableContentFieldsV5, "m.room.member", "join_authorised_via_users_server")
+//@   ensures C05.content.V5.member.keeps.third_party_invite: kept(unredactableContentFieldsV5, "m.room.member", "third_party_invite")
+//@   ensures C05.content.V5.power_levels.only: forall k string :: kept(unredactableContentFieldsV5, "m.room.power_levels", k) ==> (k == "ban" || k == "events" || k == "events_default" || k == "kick" || k == "redact" || k == "state_default" || k == "users" || k == "users_default" || k == "invite")
+//@   ensures C05.content.V5.power_levels.keeps.ban: kept(unredactableContentFieldsV5, "m.room.power_levels", "ban")
+//@   ensures C05.content.V5.power_levels.keeps.events: kept(unredactableContentFieldsV5, "m.room.power_levels", "events")
+//@   ensures C05.content.V5.power_levels.keeps.events_default: kept(unredactableContentFieldsV5, "m.room.power_levels", "events_default")
+//@   ensures C05.content.V5.power_levels.keeps.kick: kept(unredactableContentFieldsV5, "m.room.power_levels", "kick")
+//@   ensures C05.content.V5.power_levels.keeps.redact: kept(unredactableContentFieldsV5, "m.room.power_levels", "redact")
+//@   ensures C05.content.V5.power_levels.keeps.state_default: kept(unredactableContentFieldsV5, "m.room.power_levels", "state_default")
+//@   ensures C05.content.V5.power_levels.keeps.users: kept(unredactableContentFieldsV5, "m.room.power_levels", "users")
+//@   ensures C05.content.V5.power_levels.keeps.users_default: kept(unredactableContentFieldsV5, "m.room.power_levels", "users_default")
+//@   ensures C05.content.V5.power_levels.keeps.invite: kept(unredactableContentFieldsV5, "m.room.power_levels", "invite")
+//@   ensures C05.content.V5.redaction.only: forall k string :: kept(unredactableContentFieldsV5, "m.room.redaction", k) ==> (k == "redacts")
+//@   ensures C05.content.V5.redaction.keeps.redacts: kept(unredactableContentFieldsV5, "m.room.redaction", "redacts")
 
 //@ func (RoomVersionImpl).PrivilegedCreators
 //@   property C17
